@@ -464,6 +464,101 @@ Proof.
   - destruct (vget name (s_vm s)); [|discriminate]. intros [= <-]. now exists k.
 Qed.
 
+
+Lemma vdel_notin {A} k (m : list (bytes * A)) : vget k m = None -> vdel k m = m.
+Proof.
+  induction m as [|[k' v] m IH]; cbn; [reflexivity|].
+  destruct (bytes_eqb k k'); [discriminate|]. intros H. now rewrite IH.
+Qed.
+
+Lemma sys_eta s : {| s_users := s_users s; s_pxys := s_pxys s; s_vm := s_vm s; s_nh := s_nh s |} = s.
+Proof. now destruct s. Qed.
+
+Lemma nh_eta n : {| nh_cfgs := nh_cfgs n; nh_sessions := nh_sessions n |} = n.
+Proof. now destruct n. Qed.
+
+(* the state a successful Run + Add leaves *)
+Definition reg_state (s : sys) (rid : bytes) (k : pkind) (name sk : bytes) (eff : list bytes) : sys :=
+  if is_hole k then
+    {| s_users := s_users s; s_pxys := (name, (rid, k)) :: s_pxys s; s_vm := s_vm s;
+       s_nh := {| nh_cfgs := (name, {| nc_sk := sk; nc_allow := eff |}) :: nh_cfgs (s_nh s);
+                  nh_sessions := nh_sessions (s_nh s) |} |}
+  else
+    {| s_users := s_users s; s_pxys := (name, (rid, k)) :: s_pxys s;
+       s_vm := (name, {| vb_sk := sk; vb_allow := eff; vb_queue := []; vb_closed := false |}) :: s_vm s;
+       s_nh := s_nh s |}.
+
+(* Run + Add either registers a free name, or - the name being taken, by a proxy of the same table (Run fails:
+   "repeated") or of the other table (Run succeeds, Add fails, Close removes what Run set up) - leaves the state as it was *)
+Lemma run_add_cases s rid k name sk eff :
+  sys_tables_ok s ->
+  (vget name (s_pxys s) = None /\ sys_run_add s rid k name sk eff = (reg_state s rid k name sk eff, OReg VLOk)) \/
+  (vget name (s_pxys s) <> None /\ fst (sys_run_add s rid k name sk eff) = s /\
+   (snd (sys_run_add s rid k name sk eff) = OReg VLErrRepeated \/ snd (sys_run_add s rid k name sk eff) = ORegErrInUse)).
+Proof.
+  intros Hok. pose proof (Hok name) as Hn. unfold sys_run_add, reg_state.
+  destruct (vget name (s_pxys s)) as [[o' k']|] eqn:Gp.
+  - right. split; [discriminate|]. destruct (is_hole k) eqn:Ek.
+    + unfold vnh_listen_client. destruct (vget name (nh_cfgs (s_nh s))) as [c|] eqn:Gc; cbn [fst snd]; [tauto|].
+      split; [|tauto]. unfold vnh_close_client. cbn [nh_cfgs nh_sessions vdel]. rewrite v_bytes_eqb_refl.
+      rewrite (vdel_notin _ _ Gc), nh_eta. apply sys_eta.
+    + unfold vm_listen. destruct (vget name (s_vm s)) as [b|] eqn:Gv; cbn [fst snd]; [tauto|].
+      split; [|tauto]. unfold vm_close_listener, vm_listener_close. rewrite vget_cons_same.
+      unfold vset. cbn [vdel]. rewrite !v_bytes_eqb_refl. rewrite !(vdel_notin _ _ Gv). apply sys_eta.
+  - left. split; [reflexivity|]. destruct Hn as [Hvm Hnh]. destruct (is_hole k).
+    + unfold vnh_listen_client. now rewrite Hnh.
+    + unfold vm_listen. now rewrite Hvm.
+Qed.
+
+Lemma run_add_refines s sp rid k name sk eff :
+  sys_inv s -> sys_abs s sp ->
+  sys_inv (fst (sys_run_add s rid k name sk eff)) /\
+  sys_abs (fst (sys_run_add s rid k name sk eff))
+          (match sp_reg sp name with
+           | None => {| sp_user := sp_user sp;
+                        sp_reg := vupd (sp_reg sp) name
+                                       (Some {| vr_owner := rid; vr_kind := k; vr_sk := sk; vr_allow := eff |}) |}
+           | Some _ => sp
+           end).
+Proof.
+  intros [Hnd Hok] [Hau Har].
+  destruct (run_add_cases s rid k name sk eff Hok) as [[Gp E]|[Gp [E _]]].
+  - rewrite E. cbn [fst]. rewrite <- Har, (proj2 (sys_reg_none_iff s name Hok) Gp).
+    pose proof (Hok name) as Hname. rewrite Gp in Hname. destruct Hname as [Hvm Hnh].
+    unfold reg_state. destruct (is_hole k) eqn:Ek.
+    + split; [split|split].
+      * cbn. constructor; [now apply vget_none_notin|exact Hnd].
+      * intros n. cbn [s_pxys s_vm s_nh nh_cfgs]. destruct (v_bytes_dec n name) as [->|Hne].
+        -- rewrite !vget_cons_same, Ek. split; [exact Hvm|discriminate].
+        -- rewrite !vget_cons_other by assumption. apply Hok.
+      * exact Hau.
+      * intros n. cbn [sp_reg]. unfold vupd, sys_reg. cbn [s_pxys s_vm s_nh nh_cfgs].
+        destruct (v_bytes_dec n name) as [->|Hne].
+        -- rewrite v_bytes_eqb_refl, !vget_cons_same, Ek. reflexivity.
+        -- rewrite (v_bytes_eqb_neq n name Hne), !vget_cons_other by assumption. apply Har.
+    + split; [split|split].
+      * cbn. constructor; [now apply vget_none_notin|exact Hnd].
+      * intros n. cbn [s_pxys s_vm s_nh nh_cfgs]. destruct (v_bytes_dec n name) as [->|Hne].
+        -- rewrite !vget_cons_same, Ek. split; [exact Hnh|discriminate].
+        -- rewrite !vget_cons_other by assumption. apply Hok.
+      * exact Hau.
+      * intros n. cbn [sp_reg]. unfold vupd, sys_reg. cbn [s_pxys s_vm s_nh nh_cfgs].
+        destruct (v_bytes_dec n name) as [->|Hne].
+        -- rewrite v_bytes_eqb_refl, !vget_cons_same, Ek. reflexivity.
+        -- rewrite (v_bytes_eqb_neq n name Hne), !vget_cons_other by assumption. apply Har.
+  - rewrite E. rewrite <- Har.
+    assert (Hsome : sys_reg s name <> None) by (rewrite sys_reg_none_iff by assumption; exact Gp).
+    destruct (sys_reg s name); [|congruence]. repeat split; assumption.
+Qed.
+
+Lemma run_add_out s rid k name sk eff :
+  sout_refused (snd (sys_run_add s rid k name sk eff)) = false.
+Proof.
+  unfold sys_run_add. destruct (is_hole k).
+  - destruct (vnh_listen_client _ _ _ _) as [nh' [|]]; [|reflexivity]. now destruct (vget name (s_pxys s)).
+  - destruct (vm_listen _ _ _ _) as [vm' [|]]; [|reflexivity]. now destruct (vget name (s_pxys s)).
+Qed.
+
 Section Refinement.
   Variable hash : bytes -> Z -> bytes.
 
@@ -471,7 +566,7 @@ Section Refinement.
     sys_inv s -> sys_abs s sp ->
     sys_inv (fst (sys_step hash s op)) /\ sys_abs (fst (sys_step hash s op)) (spec_step sp op).
   Proof.
-    intros Hinv Habs. destruct op as [rid user|rid|rid k name sk allow|rid name|rid name ts sign ue uc cid eok|rid name ts sign pre sid dl|sid|name].
+    intros Hinv Habs. destruct op as [rid user|rid|rid k name sk allow|rid k name sk allow|rid name|rid name ts sign ue uc cid eok|rid name ts sign pre sid dl|sid|name].
     - (* SLogin *)
       destruct (logout_refines s sp rid Hinv Habs) as ([Hnd Hok] & _ & Hu & Hr). cbn [sys_step fst spec_step].
       split; [split; [exact Hnd|exact Hok]|]. split.
@@ -484,34 +579,17 @@ Section Refinement.
       destruct (logout_refines s sp rid Hinv Habs) as (Hi & _ & Hu & Hr). cbn [sys_step fst spec_step].
       split; [exact Hi|]. split; [exact Hu|exact Hr].
     - (* SRegister *)
-      destruct Hinv as [Hnd Hok]. destruct Habs as [Hau Har]. cbn [sys_step spec_step].
-      rewrite <- Hau. destruct (vget rid (s_users s)) as [u|]; [|cbn; repeat split; assumption].
-      rewrite <- Har. destruct (vget name (s_pxys s)) as [[o' k']|] eqn:Gp.
-      + assert (Hsome : sys_reg s name <> None) by (rewrite sys_reg_none_iff by assumption; congruence).
+      cbn [sys_step spec_step]. destruct Habs as [Hau Har]. rewrite <- Hau.
+      destruct (vget rid (s_users s)) as [u|]; [|cbn; split; [assumption|now split]].
+      destruct (vget name (s_pxys s)) as [[o' k']|] eqn:Gp.
+      + destruct Hinv as [Hnd Hok]. rewrite <- Har.
+        assert (Hsome : sys_reg s name <> None) by (rewrite sys_reg_none_iff by assumption; congruence).
         destruct (sys_reg s name); [|congruence]. cbn. repeat split; assumption.
-      + rewrite (proj2 (sys_reg_none_iff s name Hok) Gp).
-        pose proof (Hok name) as Hname. rewrite Gp in Hname. destruct Hname as [Hvm Hnh].
-        destruct (is_hole k) eqn:Ek.
-        * unfold vnh_listen_client. rewrite Hnh. cbn [fst]. split; [split|split].
-          -- cbn. constructor; [now apply vget_none_notin|exact Hnd].
-          -- intros n. cbn [s_pxys s_vm s_nh nh_cfgs]. destruct (v_bytes_dec n name) as [->|Hne].
-             ++ rewrite !vget_cons_same, Ek. split; [exact Hvm|discriminate].
-             ++ rewrite !vget_cons_other by assumption. apply Hok.
-          -- exact Hau.
-          -- intros n. cbn [sp_reg]. unfold vupd, sys_reg. cbn [s_pxys s_vm s_nh nh_cfgs].
-             destruct (v_bytes_dec n name) as [->|Hne].
-             ++ rewrite v_bytes_eqb_refl, !vget_cons_same, Ek. reflexivity.
-             ++ rewrite (v_bytes_eqb_neq n name Hne), !vget_cons_other by assumption. apply Har.
-        * unfold vm_listen. rewrite Hvm. cbn [fst]. split; [split|split].
-          -- cbn. constructor; [now apply vget_none_notin|exact Hnd].
-          -- intros n. cbn [s_pxys s_vm s_nh nh_cfgs]. destruct (v_bytes_dec n name) as [->|Hne].
-             ++ rewrite !vget_cons_same, Ek. split; [exact Hnh|discriminate].
-             ++ rewrite !vget_cons_other by assumption. apply Hok.
-          -- exact Hau.
-          -- intros n. cbn [sp_reg]. unfold vupd, sys_reg. cbn [s_pxys s_vm s_nh nh_cfgs].
-             destruct (v_bytes_dec n name) as [->|Hne].
-             ++ rewrite v_bytes_eqb_refl, !vget_cons_same, Ek. reflexivity.
-             ++ rewrite (v_bytes_eqb_neq n name Hne), !vget_cons_other by assumption. apply Har.
+      + apply run_add_refines; [assumption|now split].
+    - (* SRegisterLate *)
+      cbn [sys_step spec_step]. destruct Habs as [Hau Har]. rewrite <- Hau.
+      destruct (vget rid (s_users s)) as [u|]; [|cbn; split; [assumption|now split]].
+      apply run_add_refines; [assumption|now split].
     - (* SClose *)
       destruct Hinv as [Hnd Hok]. destruct Habs as [Hau Har]. cbn [sys_step spec_step].
       rewrite <- Har. destruct (vget name (s_pxys s)) as [[o k]|] eqn:Gp.
@@ -594,8 +672,6 @@ Proof.
   intros Hok Hr. apply (sys_reg_none_iff s name Hok) in Hr. specialize (Hok name). now rewrite Hr in Hok.
 Qed.
 
-Lemma sys_eta s : {| s_users := s_users s; s_pxys := s_pxys s; s_vm := s_vm s; s_nh := s_nh s |} = s.
-Proof. now destruct s. Qed.
 
 (* every answer that is not an admission is an error or a plain pre-check answer: the owner's queue and
    sid channel receive something only on VOk / NhNotified *)
@@ -688,15 +764,17 @@ Section Clauses.
   Theorem refused_leaves_no_state s op s' o :
     sys_step hash s op = (s', o) -> sout_refused o = true -> s' = s.
   Proof.
-    destruct op as [rid user|rid|rid k name sk allow|rid name|rid name ts sign ue uc cid eok|rid name ts sign pre sid dl|sid|name];
+    destruct op as [rid user|rid|rid k name sk allow|rid k name sk allow|rid name|rid name ts sign ue uc cid eok|rid name ts sign pre sid dl|sid|name];
       cbn [sys_step].
     - intros [= <- <-]. discriminate.
     - intros [= <- <-]. discriminate.
-    - destruct (vget rid (s_users s)); [|now intros [= <- <-]].
+    - destruct (vget rid (s_users s)) as [u|]; [|now intros [= <- <-]].
       destruct (vget name (s_pxys s)); [now intros [= <- <-]|].
-      destruct (is_hole k).
-      + destruct (vnh_listen_client _ _ _ _) as [nh' [|]]; intros [= <- <-]; discriminate.
-      + destruct (vm_listen _ _ _ _) as [vm' [|]]; intros [= <- <-]; discriminate.
+      intros E Hr. pose proof (run_add_out s rid k name sk (vdefault_allow allow u)) as Ho.
+      rewrite E in Ho. cbn [snd] in Ho. congruence.
+    - destruct (vget rid (s_users s)) as [u|]; [|now intros [= <- <-]].
+      intros E Hr. pose proof (run_add_out s rid k name sk (vdefault_allow allow u)) as Ho.
+      rewrite E in Ho. cbn [snd] in Ho. congruence.
     - destruct (vget name (s_pxys s)) as [[o' k]|]; [destruct (bytes_eqb o' rid)|]; intros [= <- <-]; discriminate.
     - destruct (sys_resolve_user s rid) as [user|]; [|now intros [= <- <-]].
       destruct (vm_new_conn hash (s_vm s) name cid ts sign ue uc user eok) as [vm' v] eqn:E.
@@ -743,6 +821,7 @@ Section Clauses.
     match h with
     | [] => True
     | SRegister _ _ n _ _ :: r => n <> name /\ no_register name r
+    | SRegisterLate _ _ n _ _ :: r => n <> name /\ no_register name r
     | _ :: r => no_register name r
     end.
 
@@ -754,6 +833,9 @@ Section Clauses.
     { destruct op; cbn [no_register] in Hnr; cbn [spec_step]; try (split; [exact Hn|exact Hnr]).
       - split; [|exact Hnr]. cbn. unfold spec_drop_owner. now rewrite Hn.
       - split; [|exact Hnr]. cbn. unfold spec_drop_owner. now rewrite Hn.
+      - destruct Hnr as [Hne Hnr]. split; [|exact Hnr].
+        destruct (sp_user sp rid); [|exact Hn]. destruct (sp_reg sp name0); [exact Hn|].
+        cbn. unfold vupd. rewrite (v_bytes_eqb_neq name name0) by congruence. exact Hn.
       - destruct Hnr as [Hne Hnr]. split; [|exact Hnr].
         destruct (sp_user sp rid); [|exact Hn]. destruct (sp_reg sp name0); [exact Hn|].
         cbn. unfold vupd. rewrite (v_bytes_eqb_neq name name0) by congruence. exact Hn.
@@ -904,6 +986,16 @@ Qed.
 Definition queued_in (t : vtable) (n : bytes) (c : vconn) : Prop :=
   exists b, vget n t = Some b /\ In c (vb_queue b).
 
+Lemma run_add_queued s rid k name sk eff n c :
+  sys_tables_ok s -> queued_in (s_vm (fst (sys_run_add s rid k name sk eff))) n c -> queued_in (s_vm s) n c.
+Proof.
+  intros Hok. destruct (run_add_cases s rid k name sk eff Hok) as [[_ E]|[_ [E _]]]; rewrite E; [|trivial].
+  cbn [fst]. unfold reg_state. destruct (is_hole k); [trivial|]. cbn [s_vm]. intros [b [G Hin]].
+  destruct (v_bytes_dec n name) as [->|Hne].
+  - rewrite vget_cons_same in G. injection G as <-. destruct Hin.
+  - rewrite vget_cons_other in G by assumption. now exists b.
+Qed.
+
 Section Trace.
   Variable hash : bytes -> Z -> bytes.
 
@@ -921,18 +1013,15 @@ Section Trace.
       destruct (Hn n) as [Hn1 Hn2]. destruct (owned_in (s_pxys s) rid n).
       - specialize (Hok' n). rewrite (Hn1 eq_refl) in Hok'. destruct Hok'; congruence.
       - destruct (Hn2 eq_refl) as (_ & Hv & _). rewrite Hv in G. now exists b'. }
-    destruct op as [rid user|rid|rid k name sk allow|rid name|rid name ts sign ue uc cid eok|rid name ts sign pre sid dl|sid|name];
+    destruct op as [rid user|rid|rid k name sk allow|rid k name sk allow|rid name|rid name ts sign ue uc cid eok|rid name ts sign pre sid dl|sid|name];
       cbn [sys_step] in E.
     - injection E as <- <-. left. cbn [s_vm] in G'. now apply (Hlogout rid).
     - injection E as <- <-. left. now apply (Hlogout rid).
-    - left. destruct (vget rid (s_users s)); [|injection E as <- <-; now exists b'].
+    - left. destruct (vget rid (s_users s)) as [u|]; [|injection E as <- <-; now exists b'].
       destruct (vget name (s_pxys s)); [injection E as <- <-; now exists b'|].
-      destruct (is_hole k).
-      + destruct (vnh_listen_client _ _ _ _) as [nh' [|]]; injection E as <- <-; now exists b'.
-      + unfold vm_listen in E. destruct (vget name (s_vm s)) eqn:Gn; injection E as <- <-; [now exists b'|].
-        cbn [s_vm] in G'. destruct (v_bytes_dec n name) as [->|Hne].
-        * rewrite vget_cons_same in G'. injection G' as <-. destruct Hin.
-        * rewrite vget_cons_other in G' by assumption. now exists b'.
+      apply (run_add_queued s rid k name sk (vdefault_allow allow u) n c Hok). rewrite E. now exists b'.
+    - left. destruct (vget rid (s_users s)) as [u|]; [|injection E as <- <-; now exists b'].
+      apply (run_add_queued s rid k name sk (vdefault_allow allow u) n c Hok). rewrite E. now exists b'.
     - left. destruct (vget name (s_pxys s)) as [[o' k]|]; [destruct (bytes_eqb o' rid)|]; injection E as <- <-;
         try (now exists b').
       destruct (close_one_lookups s name k) as (_ & _ & _ & Hoth & Hk).
